@@ -130,7 +130,7 @@ func genSysHistory(rng *proto.Rng) sysIn {
 			}
 		}
 		run.Opts = sysOpts{NoPrune: rng.Chance(1, 7), Policy: rng.Intn(3), SkipInvalid: rng.Chance(1, 2), SSA: rng.Chance(1, 5),
-			EmitStatus: rng.Chance(1, 4), Foreground: rng.Chance(1, 5), StatusAll: rng.Chance(1, 4)}
+			EmitStatus: rng.Chance(1, 4), Foreground: rng.Chance(1, 5), StatusAll: rng.Chance(1, 4), PropDefault: rng.Chance(1, 2)}
 		if rng.Chance(1, 7) {
 			run.Opts.Dry = 1 + rng.Intn(2)
 		}
